@@ -488,8 +488,15 @@ UPaint(S, old, stroke, v, curTid, force, ord) ==
           newNode == v # 0 /\ ~Has(S, v)
           a == [n |-> v, t |-> t, tid |-> curTid, pos |-> NoPos, cust |-> None,
                 force |-> force, px |-> stroke, pxnone |-> FALSE]
-          r1 == UPaintOld(Ok(S, <<>>), labels, stroke, old, IF ord <= 2 THEN 1 ELSE 2)
+          \* "Can only update one time point at a time" (only when a label is painted). Pinned tree: asserted once
+          \* the old labels have been dealt with - the rollback then recomputes IoU values against an array that still
+          \* holds the caller's paint of an EXISTING label (finding F25); fix F25: checked before the first edit
+          twoFrames == \E q1 \in stroke : \E q2 \in stroke : FrameOf(q1) # FrameOf(q2)
+          early == Fix("F25") /\ v # 0 /\ twoFrames
+          r1 == IF early THEN Fail(S, "AssertionError")
+                ELSE UPaintOld(Ok(S, <<>>), labels, stroke, old, IF ord <= 2 THEN 1 ELSE 2)
           r2 == IF v = 0 \/ stroke = {} \/ ~r1.ok THEN r1
+                ELSE IF twoFrames THEN [s |-> r1.s, ok |-> FALSE, err |-> "AssertionError", ps |-> r1.ps]
                 ELSE IF Has(r1.s, v) THEN ThenSub(r1, LAMBDA s : PUpdSeg(s, v, stroke, TRUE))
                 ELSE ThenSub(r1, LAMBDA s : Sub(UAddNodeBody(s, a, IF ord \in {1, 3} THEN 1 ELSE 2)))
           \* fix F10: a refused update inverts the sub-actions it had completed
